@@ -1,5 +1,5 @@
 (* C19 property theorems. Nothing but statements closed by [exact]. *)
-From OIDC Require Import Lib C19_Discovery C19_spec C19_proofs.
+From OIDC Require Import Lib C19_Discovery C19_Conf C19_spec C19_Conf_proofs C19_proofs.
 
 (* On either router and in every configuration: a token-endpoint grant type (anything but
    implicit) is advertised in grant_types_supported exactly when a complete request of a client
@@ -164,3 +164,101 @@ Print Assumptions C19_rp_rejects_foreign_issuer.
 Theorem C19_spec_model : forall i : input, wf i = true -> spec i (model i) = true.
 Proof. exact spec_model. Qed.
 Print Assumptions C19_spec_model.
+
+(* ---- round 11: the document CreateDiscoveryConfig / createDiscoveryConfigV2 build for an ARBITRARY
+   op.Configuration cf (every method answer an independent input), under a request whose issuer is k_issuer cf *)
+
+(* grant_types_supported lists a flag-guarded grant type exactly when the configuration enables it;
+   authorization_code and implicit always; nothing but the seven known names *)
+Theorem C19_conf_grants_exact : forall (v : variant) (cf : conf) (id : string),
+  let g := d_grants (conf_doc v cf id) in
+  string_in s_code g = true /\ string_in s_implicit g = true
+  /\ string_in s_refresh g = k_refresh cf /\ string_in s_cc g = k_cc cf /\ string_in s_te g = k_te cf
+  /\ string_in s_bearer g = k_bearer cf /\ string_in s_device g = k_dev cf
+  /\ only known_grants g = true.
+Proof. exact conf_grants_exact. Qed.
+Print Assumptions C19_conf_grants_exact.
+
+(* client authentication methods as the code lists them: client_secret_post iff AuthMethodPostSupported (token,
+   revocation), private_key_jwt iff AuthMethodPrivateKeyJWTSupported - the TOKEN endpoint's flag - at all three endpoints *)
+Theorem C19_conf_methods_exact : forall (v : variant) (cf : conf) (id : string),
+  let d := conf_doc v cf id in
+  string_in m_post (d_token_methods d) = k_post cf /\ string_in m_pkjwt (d_token_methods d) = k_pkjwt cf
+  /\ string_in m_post (d_revoke_methods d) = k_post cf /\ string_in m_pkjwt (d_revoke_methods d) = k_pkjwt cf
+  /\ string_in m_post (d_intro_methods d) = false /\ string_in m_pkjwt (d_intro_methods d) = k_pkjwt cf
+  /\ only known_methods (d_token_methods d) = true /\ only known_methods (d_revoke_methods d) = true
+  /\ only known_methods (d_intro_methods d) = true.
+Proof. exact conf_methods_exact. Qed.
+Print Assumptions C19_conf_methods_exact.
+
+(* every algorithm list, code_challenge_methods_supported, the boolean members and ui_locales_supported are exactly
+   what the configuration answers, each behind its own flag *)
+Theorem C19_conf_algs_exact : forall (v : variant) (cf : conf) (id : string),
+  let d := conf_doc v cf id in
+  d_token_algs d = (if k_pkjwt cf then k_token_algs cf else [])
+  /\ d_intro_algs d = (if k_ipk cf then k_intro_algs cf else [])
+  /\ d_revoke_algs d = (if k_rpk cf then k_revoke_algs cf else [])
+  /\ d_reqobj_algs d = (if k_reqobj cf then k_reqobj_algs cf else [])
+  /\ d_pkce d = (if k_s256 cf then ["S256"] else [])
+  /\ d_reqparam d = k_reqobj cf /\ d_bcl d = k_bcl cf /\ d_bcls d = k_bcls cf
+  /\ d_locales d = k_locales cf
+  /\ (forall l, k_sigalgs cf = Some l -> d_id_algs d = l).
+Proof. exact conf_algs_exact. Qed.
+Print Assumptions C19_conf_algs_exact.
+
+(* nothing of a feature the configuration switches off is in the document *)
+Theorem C19_conf_no_leak : forall (v : variant) (cf : conf) (id : string),
+  let d := conf_doc v cf id in
+  (k_pkjwt cf = false -> d_token_algs d = [] /\ string_in m_pkjwt (d_token_methods d) = false)
+  /\ (k_ipk cf = false -> d_intro_algs d = [])
+  /\ (k_rpk cf = false -> d_revoke_algs d = [])
+  /\ (k_reqobj cf = false -> d_reqobj_algs d = [] /\ d_reqparam d = false)
+  /\ (k_s256 cf = false -> d_pkce d = [])
+  /\ (k_post cf = false -> string_in m_post (d_token_methods d) = false /\ string_in m_post (d_revoke_methods d) = false).
+Proof. exact conf_no_leak. Qed.
+Print Assumptions C19_conf_no_leak.
+
+(* the document's issuer is the request's; the eight endpoint members are the configured endpoints (V1: the
+   Configuration's answers, V2: the LegacyServer's own op.Endpoints) made absolute against that issuer; an endpoint
+   is missing from the document exactly when it is nil *)
+Theorem C19_conf_endpoints : forall (v : variant) (cf : conf) (id : string),
+  d_issuer (conf_doc v cf id) = k_issuer cf
+  /\ firstn 8 (d_endpoints (conf_doc v cf id)) = map (want_ep (k_issuer cf)) (firstn 8 (eps9_list (truth_eps v cf))).
+Proof. exact conf_endpoints. Qed.
+Print Assumptions C19_conf_endpoints.
+
+Theorem C19_conf_endpoint_absent_iff_nil : forall (iss : string) (e : ep), want_ep iss e = EmptyString <-> e = EpNil.
+Proof. exact want_ep_empty_iff. Qed.
+Print Assumptions C19_conf_endpoint_absent_iff_nil.
+
+(* AuthCallbackURL: the login callback of a path endpoint is the request's issuer + the callback route + ?id=<request id>,
+   and that route is registered by both routers, whatever the custom path and the issuer *)
+Theorem C19_callback_url_is_callback_route : forall (iss p id : string),
+  callback_url iss (EpPath p) id = (trim_suffix_slash iss ++ (relative p ++ callback_suffix) ++ "?id=" ++ id)%string.
+Proof. exact callback_route. Qed.
+Print Assumptions C19_callback_url_is_callback_route.
+
+Theorem C19_callback_route_served : forall (r : router) (c : config) (p : string),
+  e_auth (c_eps c) = EpPath p -> served r c (relative p ++ callback_suffix)%string = true.
+Proof. exact callback_route_served. Qed.
+Print Assumptions C19_callback_route_served.
+
+(* the property predicate holds of the model's document for EVERY configuration (no guard) *)
+Theorem C19_conf_spec_model : forall (v : variant) (cf : conf) (id : string),
+  spec (IConf v cf id) (model (IConf v cf id)) = true.
+Proof. exact conf_spec_model. Qed.
+Print Assumptions C19_conf_spec_model.
+
+(* OBSERVATION about the model, outside the property text: with the token endpoint's private_key_jwt flag off and the
+   revocation (introspection) endpoint's own flag on, that endpoint's signing algorithms are listed while private_key_jwt
+   is not among its methods; the last clause is the shape of the library's own Provider with AuthMethodPrivateKeyJWT off *)
+Theorem C19_conf_alg_lists_follow_endpoint_flags_observation :
+  (forall v cf id, k_pkjwt cf = false -> k_rpk cf = true ->
+     string_in m_pkjwt (d_revoke_methods (conf_doc v cf id)) = false
+     /\ d_revoke_algs (conf_doc v cf id) = k_revoke_algs cf)
+  /\ (forall v cf id, k_pkjwt cf = false -> k_ipk cf = true ->
+     string_in m_pkjwt (d_intro_methods (conf_doc v cf id)) = false
+     /\ d_intro_algs (conf_doc v cf id) = k_intro_algs cf)
+  /\ d_revoke_algs (conf_doc V1 conf_provider_like "req1") = ["RS256"].
+Proof. exact conf_alg_lists_follow_endpoint_flags_observation. Qed.
+Print Assumptions C19_conf_alg_lists_follow_endpoint_flags_observation.
